@@ -61,6 +61,28 @@ def gen_histories(seed, tier, pid):
             st = r.choice(bc.STRATS)
             steps += ["s:%s:0" % st, "s:%s:0" % st]
             hs.append(("row-loss", ";".join(steps)))
+    # a version with an OLDER time stamp put back after a sync (cp -p of a backup, tar x, touch -d): same size, other bytes, a time stamp
+    # well before the recorded one -- on one side, or on both
+    n7 = 120 if tier == "quick" else 2000
+    for _ in range(n7):
+        steps = []
+        ids = r.sample(bc.IDS, r.randrange(1, 3))
+        for _pad in range(3):                            # the logical clock runs ahead first: every file below gets a stamp >= 4,
+            steps.append("e:S:20:c:1:%d" % r.randrange(1, 250))   # so the stamps 0 and 1 used later are more than a second older than any row
+        for pid_ in ids:
+            sz = r.choice([3, 5])
+            for sd in r.choice(["S", "D", "SD"]):
+                steps.append("e:%s:%d:c:%d:%d" % (sd, pid_, sz, r.randrange(1, 250)))
+        st = r.choice(bc.STRATS)
+        steps += ["s:%s:0" % st, "s:%s:0" % st]
+        for pid_ in ids:
+            for sd in r.choice(["S", "D", "SD", "S"]):
+                steps.append("w:%s:%d:%d:%d:%d" % (sd, pid_, r.choice([3, 5]), r.randrange(1, 250), r.randrange(0, 2)))
+        if r.random() < 0.5:
+            steps.append("e:%s:%d:c:%d:%d" % (r.choice("SD"), r.choice(ids), r.choice([3, 5, 8]), r.randrange(1, 250)))
+        st = r.choice(bc.STRATS)
+        steps += ["s:%s:0" % st, "s:%s:0" % st]
+        hs.append(("backdated", ";".join(steps)))
     # two or three rename conflicts on the same path, back to back (the real runs fall into one wall-clock second): every
     # conflict copy must survive and reach the other side
     n6 = 40 if tier == "quick" else 600
